@@ -35,7 +35,7 @@ type vGoldRow struct {
 	Obj  vGold  `json:"obj"`
 }
 
-var vhGoldCfgs = []string{"base", "gzext", "async", "gzip", "cache", "ext", "lower"}
+var vhGoldCfgs = []string{"base", "gzext", "async", "gzip", "cache", "ext", "lower", "noext"}
 
 func vhGoldEq(a, b *vGold) bool {
 	if a.A != b.A || a.S != b.S || a.U != b.U || a.T.UnixNano() != b.T.UnixNano() || a.F != b.F || a.Q != b.Q ||
@@ -195,6 +195,8 @@ func VH_C18_golden_write() {
 		s.Asynchrone(2, 100*time.Millisecond)
 	case "ext":
 		s.Extension = ".bin"
+	case "noext": // the empty extension: files are named <uuid>
+		s.Extension = ""
 	case "gzext": // compression with a custom extension that itself ends in .gz
 		s = DefaultSchemaCompress
 		s.Extension = ".json.gz"
@@ -227,7 +229,7 @@ func VH_C18_golden_write() {
 	// file naming: same suffix after the 36-character uuid
 	suffix := func(ns []string) string {
 		for _, n := range ns {
-			if n != "schema.json" && len(n) > 36 {
+			if n != "schema.json" && len(n) >= 36 {
 				return n[36:]
 			}
 		}
